@@ -202,7 +202,7 @@ def run(ctx, res):
                                 break
                 # the function of the all-wages theorem == implementation, all four insurances, for the configurations the sweep realises
                 cfg = {False: (ost, 0, 35), "young": (ost, 0, 20), 1: (ost, 1, 35), 2: (ost, 2, 35), 4: (ost, 4, 35), 6: (ost, 6, 35)}.get(kids if not isinstance(kids, bool) or kids is False else None)
-                if cfg is not None and (ctx.tier == "thorough" or o in (impl.ordinal("2024-01-01"), impl.ordinal("2019-01-01"))):
+                if cfg is not None and ((ctx.tier == "thorough" and o % 3 == 0) or o in (impl.ordinal("2024-01-01"), impl.ordinal("2019-01-01"))):
                     tg4 = [trip[0] for trip in ALL_BRANCHES.values() if trip[0] in outp.columns]
                     sub = ws[:: max(1, len(ws) // 40)]
                     try:
